@@ -12,7 +12,8 @@ META = {
             "has no repeated entry. Bounded stand-in on the real generation code (not counted as proved): for every function of the generated libraries (six shipped bases, random sub-bases through the "
             "ESR_VERIF hook) the recorded chain of substitutions, composed as convert_params/check_results compose it and parsed by an independent reader, "
             "maps the unique function's parameters to parameters at which the function equals its unique pointwise (5 generic points, mpmath); "
-            "'nan' entries only where the unique has strictly fewer parameters; uniques pairwise distinct, parameters without gaps; all per-function "
+            "'nan' entries only where the unique has strictly fewer parameters, and (unique functions with at most two parameters) the unique function still attains the function's values at five parameter vectors of mixed signs "
+            "(signed log grid refined by least squares: 'the same family of curves'); uniques pairwise distinct, parameters without gaps; all per-function "
             "files have one line per function. Step (3) of do_sympy (both copies of the loop) is verified: every function takes the new string of its own unique function and its chain is the old chain followed, in order, by "
             "what the round recorded for that unique function (nothing appended when nothing was recorded), with a composition lemma over get_unique_indexes' contract and an ASSUMED per-step "
             "relation for sympy_simplify. For the two merge searches of sympy_simplify that work on pairs of functions (parameter permutations, sign flips) that relation is established: the loop applying the "
